@@ -7,6 +7,7 @@ Model: DTML/Render.lean (`callStack` = the namespace String.__call__ builds, `in
 import DTML.Render
 import DTML.Props.C08
 import DTML.Lemmas.Cache
+import DTML.GenNs
 set_option linter.unusedVariables false
 namespace DTML.Props.C02
 open DTML.Render
@@ -517,5 +518,35 @@ private def got (n : String) : Option Int :=
 -- client before mapping before defaults; the last client first; private names skip the clients
 example : got "n" = some 2 ∧ got "m" = some 3 ∧ got "_p" = some 10 ∧ got "zz" = none := by decide
 end Example
+
+/-! ### The instance lookup of the model is the one of the source
+
+`GenNs.instGetitemGen` is regenerated on every run by translating the statements of `InstanceDict.__getitem__` in /repo
+(the cache test, the private-name test, the choice of `get`, the read inside `try … except AttributeError`, the cache
+store; harness/trans_ns.py).  It computes `frameGet` on an instance frame - the function every lookup theorem above (and
+the guard theorems of C05, the per-item pushes of C10) rests on. -/
+theorem gen_instancedict_getitem_is_model (env : Env) (v : Val) (cache : List (Text × Val)) (key : Text)
+    (tr : List Event) :
+    GenNs.instGetitemGen env v cache key tr = frameGet env (.inst v cache) key tr := by
+  unfold GenNs.instGetitemGen GenNs.getAttr
+  simp only [frameGet]
+  cases hc : List.lookup key cache with
+  | some c => simp
+  | none =>
+    simp only
+    by_cases hu : key.head? = some '_'
+    · simp only [hu, if_true]
+      by_cases hs : key = "__str__".toList
+      · simp [hs]
+      · simp [hs]
+    · simp only [hu, if_false]
+      cases v with
+      | obj id attrs =>
+        simp only
+        by_cases hd : (env.guardOn && isDenied env id key) = true
+        · simp [hd]
+        · simp only [hd]
+          cases attrs.lookup key <;> simp
+      | _ => rfl
 
 end DTML.Props.C02
